@@ -15,4 +15,11 @@ def run(ctx):
 
 
 def heap_part(ctx):
-    pass
+    lts_replay(ctx, "heap", "HeapP", "ltsh_it.cfg", "heap", depth=ctx.pick(5, 6), walks=ctx.pick(5000, 50000), wlen=30,
+               budget=ctx.pick(200000, 2000000), min_cover=0)
+    lts_replay(ctx, "heap", "PQP", "ltsq_it.cfg", "pq3", depth=ctx.pick(4, 5), walks=ctx.pick(5000, 50000), wlen=30,
+               budget=ctx.pick(200000, 2000000), min_cover=0)
+    drive_tv(ctx, "heap", "Trace_Heap", "tvh.cfg", "heap", variant="iter", runs=ctx.pick(20, 200), ops=ctx.pick(300, 600))
+    drive_tv(ctx, "heap", "Trace_PQ", "tvq.cfg", "pq", variant="iter", runs=ctx.pick(20, 200), ops=ctx.pick(300, 600))
+    ctx.assumptions += ["deque Set, heap Grow/Shrink and PriorityQueue.Update of a present key count as changes after which "
+                        "a panic or a correct continuation are both accepted; adding/removing once iteration is under way: only a panic"]
